@@ -98,6 +98,16 @@ func allScenarios(tier string) []*Scenario {
 			}
 		}
 	}
+	if !thorough {
+		// the per-signal batch types share no code: immediate modes (no max size, no batch size) for logs and metrics too
+		for _, sig := range []string{"logs", "metrics"} {
+			for i, cfg := range [][3]int{{0, 0, 1}, {3, 0, 0}, {0, 2, 1}, {4, 0, 1}} {
+				ss.add(Scenario{Name: fmt.Sprintf("D6-immediate%d/%s/er1", i, sig), Signal: sig, S: uint32(cfg[0]), M: uint32(cfg[1]), Timeout: time.Duration(cfg[2]) * T,
+					Early: true, QB: 1,
+					Callers: []CallerSpec{{Label: "A", Reqs: []Shape{simple(sig, "A", 3)}}, {Label: "B", Reqs: []Shape{simple(sig, "B", 1)}}}})
+			}
+		}
+	}
 	// D2 split of one nested request over three batches, all signals and metric types
 	for _, sig := range []string{"traces", "logs", "metrics"} {
 		mts := []pmetric.MetricType{pmetric.MetricTypeGauge}
@@ -181,6 +191,12 @@ func addTenants(ss *scenarioSet, thorough bool) {
 	ss.add(Scenario{Name: "D8-limit1-two-requests", Signal: "traces", S: 1, Timeout: T, Keys: keys, Limit: 1,
 		Callers: []CallerSpec{{Label: "A", Reqs: []Shape{simple("traces", "A", 1), simple("traces", "A2", 1)}, Metadata: md("tenant", "x")},
 			{Label: "B", Reqs: one("B", 1), Metadata: md("tenant", "y")}}})
+	// a refused combination comes back: it must stay refused (and nothing of it may be parked or exported)
+	for _, early := range []bool{false, true} {
+		ss.add(Scenario{Name: "D8-limit1-retry/er" + bools(early), Signal: "traces", S: 1, Timeout: T, Keys: keys, Limit: 1, Early: early,
+			Callers: []CallerSpec{{Label: "A", Reqs: one("A", 1), Metadata: md("tenant", "x")},
+				{Label: "B", Reqs: []Shape{simple("traces", "B", 1), simple("traces", "B2", 1)}, Metadata: md("tenant", "y")}}})
+	}
 	if thorough {
 		ss.add(Scenario{Name: "D8-limit2-race3-k1", TB: 2, Signal: "traces", S: 1, Timeout: T, Keys: keys, Limit: 2, K: 1,
 			Callers: []CallerSpec{{Label: "A", Reqs: one("A", 1), Metadata: md("tenant", "x")}, {Label: "B", Reqs: one("B", 1), Metadata: md("tenant", "y")},
